@@ -8,6 +8,7 @@ sys.path.insert(0, os.path.dirname(os.path.abspath(__file__)))
 from common import BUILD_DIR  # noqa: E402
 
 RULES = {
+    "effects": "every public method (98 today) of the classes in richchk.editor.*, richchk.io.chk.*, richchk.io.richchk.* and richchk.transcoder.* is wrapped; at each outermost wrapped call every argument (self included) is deep-snapshotted before and compared after (lists, tuples, sets, dicts, dataclass fields, recursively); the wrapped library is driven, per generated map (quick 5, thorough 30 + fixtures; editor-form and valid-form, 64-slot MRGN, prefilled UPRP), through decode -> rich decode -> unedited save -> query helpers -> every editor (locations, unit-property sets, switches, WAV entries, strings, triggers, unit settings; each also re-applied to its own output) -> section replacement -> save -> second save (same bytes) -> reload, plus direct calls of every one-argument public method of the rebuilders / lookup builders; all values produced so far are re-verified after every step (composition); distinct_nontrivial = distinct (step, position) pairs",
     "edit": "edit histories on top of base maps (the three fixtures + generated editor-form / valid maps incl. 64-slot MRGN and prefilled UPRP): 1-3 segments separated by save+reload, each with 1-3 operations among add triggers (1-3 triggers of 0..16 conditions / 1..64 actions drawn from ALL supported types of the specification table, arguments: boundary and random integers per field width, first/last/random enum members, existing and new locations / switches / unit-property sets shared among entries and triggers, strings new / duplicate / already present / null, AI scripts known and unknown, raw undecoded entries), upsert unit settings (any of the 228 units, hit points as fractions with denominators 1,2,4,10,256,1000, its weapons), add WAV entries; every third history has several new index-less objects per save (mode multi: oracle only), the others at most one per kind per save (mode single: the saved bytes are compared with the Lean driver, op edit).  The history is described abstractly; the real side drives RichTrigEditor / RichUnisEditor / RichUnixEditor / RichWavEditor / RichChkEditor + RichChkIo + ChkIo, the oracles read the saved bytes with the independent reader (C04: every authored value in its specification field, every reference resolving to the authored object, reload equality modulo allocated indices; C07: every pre-existing string id / location / switch / unit-property / WAV slot, the pre-existing triggers byte for byte and in place, and every section no edit concerns byte-identical to the unedited save; C11: + degenerate histories: 17 conditions, 65 actions, 100 raw actions, rich + raw overflow, empty trigger, integers beyond a field, carried indices outside slot ranges, 70 new unit-property sets, non-7-bit text: raise or structurally valid); distinct_nontrivial = distinct edit lines",
     "rich": "whole unedited load/save cycles bytes -> decoded -> rich -> decoded -> bytes: the three fixture CHKs, N generated editor-form maps (STR one entry per id in order, UPUS consistent, 255-slot MRGN; variants: 64-slot retail MRGN, editor-prefilled UPRP with zero UPUS) and N/2 valid-but-not-editor-form maps (shared / unsorted string offsets, unused ids, several ids for one text, gaps), every map with STR, MRGN (named/unnamed/empty slots), UPRP+UPUS, SWNM, WAV, UNIS/UNIx (custom names, weapon damage), TRIG with every supported action/condition type of the specification table plus unsupported types and empty entries, unknown and enum-only sections between them; plus one deterministic witness per recorded finding.  Each map is cycled twice by the real code and once by the Lean driver (op cycle, byte-compared); oracles read both byte strings with the independent reader harness/refchk.py (game view: every string reference resolved to its text, locations by coordinates, CUWP slots by content, triggers by resolved arguments; structural validity; pass-through sections and unsupported trigger entries in place); distinct_nontrivial = distinct input byte strings",
     "fileops": "every scenario is one real call in its own process on copies of the corpus archives with the real StormLib: C15 = 5 entry points x destination {absent, existing, same path as source} x flag {default, false, true} (+ empty / non-empty audio batch), hashes of base, destination and an unnamed neighbour file before/after; C16 = for save / audio import / read, destination absent and pre-existing: a fault-free run records the ordered archive-library and file-system calls, then EVERY call is made to fail before and after taking effect (copies also part-way) and base hash, destination hash, temp dir and destination dir listings are checked; C17 = save (unedited and 2/40(/200) added triggers) and audio import over every corpus archive, member listing and per-member hashes, stored scenario vs encoder bytes, reload equality, and WAV duration on generated headers vs the Lean driver (wavms); distinct_nontrivial = distinct scenario specs",
@@ -96,6 +97,11 @@ def main():
         out.violations += o2.violations
         out.notes += o2.notes
         rule = RULES["rich"] + " || " + RULES["edit"]
+    elif prop == "C13":
+        import effects_h
+
+        out = generic(effects_h, prop, tier, seed, replay)
+        rule = RULES["effects"]
     elif prop == "C12":
         import codecs_h
 
